@@ -113,8 +113,9 @@ Definition remove_identifiers (target : node) : M unit :=
 
 Definition params_all (ps : params) : list string :=
   p_posonly ps ++ p_args ps ++ opt_list (p_vararg ps) ++ p_kwonly ps ++ opt_list (p_kwarg ps).
+(* add_arguments_to_context: parameters are added with is_argument=True - they shadow whatever an ancestor scope holds *)
 Definition add_arguments (ps : params) : M unit :=
-  mapM_ (fun nm => mod_ctx (fun c => ctx_add c (mkSym nm KName) false)) (params_all ps).
+  mapM_ (fun nm => mod_ctx (fun c => ctx_add c (mkSym nm KName) true)) (params_all ps).
 
 (* CallArguments.from_call(call, self=...) *)
 Fixpoint arg_names (args : list node) : M (list string) :=
